@@ -150,4 +150,5 @@ class JWTClaimsRegistry(ClaimsRegistry):
 
 
 def _validate_numeric_time(s: int) -> bool:
-    return isinstance(s, (int, float))
+    # JSON true and false are not numbers (bool is a subclass of int)
+    return isinstance(s, (int, float)) and not isinstance(s, bool)
